@@ -144,6 +144,8 @@ pub struct ExecEnv {
     pub stop_on_err: bool,
     /// end with mem::forget instead of Drop? never; Drop is always executed
     pub final_finish: bool,
+    /// the store already holds a durable image: no initial writer lifetime (the first op is Append)
+    pub pre_started: bool,
 }
 
 pub struct ExecOut {
@@ -152,6 +154,8 @@ pub struct ExecOut {
     pub final_res: Option<Res>,
     /// sink position right after the last successful finish()
     pub end_pos: Option<u64>,
+    /// one record per writer lifetime that ended: (opened by Append, sink position when it ended, image length then)
+    pub lives: Vec<(bool, u64, u64)>,
 }
 
 /// write `data` with write_all semantics, piece by piece, counting what the writer accepted
@@ -180,14 +184,18 @@ pub fn run_program(ops: &[Op], env: &ExecEnv) -> ExecOut {
     let mut steps: Vec<Step> = Vec::with_capacity(ops.len());
     let mk_sink = || SimDisk::with_io(env.store.clone(), env.sink_io.clone());
     let mut w: Option<ZipWriter<SimDisk>> = None;
-    let mut started = false;
-    let mut finished = false;
+    let mut started = env.pre_started;
+    let mut finished = env.pre_started;
     let mut end_pos: Option<u64> = None;
+    let mut lives: Vec<(bool, u64, u64)> = vec![];
+    let mut life_appended = false;
+    let mut life_alive = false;
     for op in ops {
         if !started {
             // the first writer lifetime always exists (an Append as first op reopens an empty archive)
             w = Some(ZipWriter::new(mk_sink().at(env.start_pos)));
             started = true;
+            life_alive = true;
         }
         let mut accepted = 0u64;
         let mut retries = 0u32;
@@ -196,9 +204,15 @@ pub fn run_program(ops: &[Op], env: &ExecEnv) -> ExecOut {
                 started = true;
                 finished = false;
                 drop(w.take());
+                if life_alive {
+                    lives.push((life_appended, crate::simio::last_pos(&env.sink_io), crate::simio::len_of(&env.store)));
+                }
+                life_alive = false;
                 match ZipWriter::new_append(mk_sink()) {
                     Ok(nw) => {
                         w = Some(nw);
+                        life_alive = true;
+                        life_appended = true;
                         Res::Ok(0)
                     }
                     Err(e) => Res::Err(zerr(&e)),
@@ -352,7 +366,10 @@ pub fn run_program(ops: &[Op], env: &ExecEnv) -> ExecOut {
         }
     }
     drop(w); // Drop is always part of the program
-    ExecOut { steps, final_res, end_pos }
+    if life_alive || !started {
+        lives.push((life_appended, crate::simio::last_pos(&env.sink_io), crate::simio::len_of(&env.store)));
+    }
+    ExecOut { steps, final_res, end_pos, lives }
 }
 
 /// read an entire ZipFile with the given caller buffer sizes (cycled); returns bytes and the first error
